@@ -99,9 +99,15 @@ def expected_names(out_name, numrec, R):
     if numrec == 0:
         return [out_name]
     nfiles = math.ceil(R / numrec)
-    if out_name == "out.nc":
-        return [f"out_{k:03d}.nc" for k in range(nfiles)]
-    return [f"out_{7 + k:02d}.nc" for k in range(nfiles)]
+    # documented numbering: cake.nc -> cake_000.nc, cake_001.nc, ...; cake_04.nc -> cake_04.nc, cake_05.nc, ...
+    import re
+
+    stem = out_name[:-3]
+    m = re.search(r"_(\d+)$", stem)
+    if not m:
+        return [f"{stem}_{k:03d}.nc" for k in range(nfiles)]
+    first, width, root = int(m.group(1)), len(m.group(1)), stem[:m.start()]
+    return [f"{root}_{first + k:0{width}d}.nc" for k in range(nfiles)]
 
 
 def oracle(case) -> core.CaseResult:
@@ -164,7 +170,7 @@ def all_cases(quick):
     nr = (0, 1, 2, 3) if quick else (0, 1, 2, 3, 4)
     cases = []
     for nsteps, period, numrec, layout, pvar, reverse, fname in itertools.product(
-            ns, ps, nr, ("sparse", "dense"), (False, True), (False, True), ("out.nc", "out_07.nc")):
+            ns, ps, nr, ("sparse", "dense"), (False, True), (False, True), ("out.nc", "out_07.nc", "out_0000.nc", "out_2000_00.nc")):
         cases.append(dict(nsteps=nsteps, period=period, numrec=numrec, layout=layout,
                           pvar=pvar, reverse=reverse, fname=fname))
     return cases
